@@ -303,7 +303,7 @@ func checkTwoStageCand(tr []string, n int, cand []bool, n1, n2 int, sorted1, sor
 		}
 	}
 	vnd.RequireJoined("ret")
-	vnd.NoRaces("var:eMsg")
+	vnd.NoRaces("var:")
 	vnd.NoRaces("engine.Gengine.returnResult")
 	vnd.StopIfViolated()
 	for _, i := range ord {
@@ -536,7 +536,7 @@ func checkDAG(n int, layers [][]int, f []bool, err error) {
 		}
 	}
 	vnd.RequireJoined("ret")
-	vnd.NoRaces("var:eMsg")
+	vnd.NoRaces("var:")
 	vnd.NoRaces("engine.Gengine.returnResult")
 	vnd.StopIfViolated()
 	vnd.Assert(vnd.Iff(err != nil, anyFail), "error iff a rule of a started layer failed")
